@@ -42,11 +42,12 @@ def translate(ctx):
             "wrappers": sorted(wrappers), "wrappers_skipped": [s[0] for s in wskipped],
             "overloads": [d[0] for d in ot.defs], "overloads_skipped": [s[0] for s in ot.skipped]}
     except Untranslatable as u:
-        for f in GEN_FILES:
-            try:
-                os.remove(os.path.join(common.COQ, "Gen", f))
-            except FileNotFoundError:
-                pass
+        for f in GEN_FILES:               # sources AND compiled files: a stale .vo must not satisfy the dependants
+            for ext in (".v", ".vo", ".vos", ".vok", ".glob"):
+                try:
+                    os.remove(os.path.join(common.COQ, "Gen", f[:-2] + ext))
+                except FileNotFoundError:
+                    pass
         ctx.tie("py2coq/kernels", "translator", 1, 0, [{"untranslatable": str(u)}],
                 note="the fail-closed translator rejected the current source; generated files removed")
         T = None
